@@ -16,15 +16,21 @@ let bits (o : n list) : string =
 
 let garbage k = List.init k (fun _ -> n_of_int 0xAA)
 
+(* the tables of one width are built once, like the members of the C++ object *)
+let tables_cache = Hashtbl.create 8
+let tables_of w = match Hashtbl.find_opt tables_cache w with
+  | Some t -> t
+  | None -> let t = c02_make_tables (nat_of_int w) in Hashtbl.add tables_cache w t; t
+
 let do_q w toks =
-  let wn = nat_of_int w in
+  let tbl = tables_of w in
   let rec go sc toks acc =
     match toks with
     | i :: o :: v :: rest ->
       let inn = int_of_string i and out = int_of_string o in
       let r = List.map z_of_int (csv v) in
       if List.length r <> inn then List.rev ("?len" :: acc) else
-      let ((ob, cost), sc') = c02_decode_gen tb wn (nat_of_int inn) (nat_of_int out) sc (garbage out) r in
+      let ((ob, cost), sc') = c02_decode_t tbl tb (nat_of_int inn) (nat_of_int out) sc (garbage out) r in
       let s = Printf.sprintf "out=%s cost=%d mmin=%d" (bits ob) (int_of_z cost) (int_of_z (c02_min_of tb sc')) in
       go sc' rest (s :: acc)
     | _ -> List.rev acc in
@@ -34,7 +40,7 @@ let fnv_off = 0xcbf29ce484222325L
 let fnv_prime = 1099511628211L
 
 let do_x w inn out =
-  let wn = nat_of_int w and innat = nat_of_int inn and outnat = nat_of_int out in
+  let tbl = tables_of w and innat = nat_of_int inn and outnat = nat_of_int out in
   let l = (1 lsl (w - 1)) - 1 in
   let v = Array.make inn (-l) in
   let zl = z_of_int l and zm = z_of_int (-l) and z0 = z_of_int 0 in
@@ -45,7 +51,7 @@ let do_x w inn out =
   let continue = ref true in
   while !continue do
     let r = Array.to_list (Array.map (fun x -> if x = 0 then z0 else if x > 0 then zl else zm) v) in
-    let ((ob, cost), sc') = c02_decode_gen tb wn innat outnat !sc g r in
+    let ((ob, cost), sc') = c02_decode_t tbl tb innat outnat !sc g r in
     sc := sc';
     List.iter (fun b -> h := Int64.mul (Int64.logxor !h (Int64.of_int (int_of_n b))) fnv_prime) ob;
     h := Int64.mul (Int64.logxor !h (Int64.of_int (int_of_z cost + 0x100))) fnv_prime;
